@@ -681,6 +681,8 @@ PASS_THROUGH = {
     "std::convert::AsRef::as_ref": {"args": [0], "proj": _ident},
     "std::borrow::Borrow::borrow": {"args": [0], "proj": _ident},
     "std::vec::Vec::<T, A>::as_slice": {"args": [0], "proj": _ident},
+    "std::array::<impl [T; N]>::as_slice": {"args": [0], "proj": _ident},
+    "core::array::<impl [T; N]>::as_slice": {"args": [0], "proj": _ident},
     "std::string::String::as_str": {"args": [0], "proj": _ident},
     "std::string::String::as_bytes": {"args": [0], "proj": _ident},
     "core::str::<impl str>::as_bytes": {"args": [0], "proj": _ident},
